@@ -25,11 +25,14 @@ CORPUS = [
 class PROP(PropCheck):
     id = "C02"
     theorems = ["C02_refine", "C02_fresh_state_clean", "C02_if_one_branch", "C02_count_nonpositive", "C02_times_zero", "C02_times_step",
-                "C02_until_pretest", "C02_nothing_after_signal", "C02_block_in_order", "C02_loop_absorbs_break"]
+                "C02_until_pretest", "C02_nothing_after_signal", "C02_block_in_order", "C02_loop_absorbs_break",
+                "C02_times_runs_exactly", "C02_count_is_floor", "C02_until_step", "C02_each_step", "C02_each_done", "C02_each_past_end",
+                "C02_foreach_restores_outer"]
+    audit_modules = ["C02", "C02b"]
     allowed_axioms = ("FloatAxioms.leb_spec", "leb_spec")
     coq_imports = ["Obs"]
     model_targets = ["theories/Obs.vo"]
-    prop_targets = ["theories/Props/C02.vo"]
+    prop_targets = ["theories/Props/C02.vo", "theories/Props/C02b.vo"]
     harness_mode = "run"
     quick_n = 700
     weights = dict(trace=0.2, err=0.05, lists=0.15, calls=0.15, ctl=0.9)
